@@ -25,6 +25,10 @@ Fixpoint window_idx_from (i : N) (A B : option Z) (ts : list Z) : list N :=
   end.
 Definition window_idx := window_idx_from 0%N.
 
-(* the bounds the reader's microsecond clock can represent (u64 microseconds) *)
+(* the bounds the reader's microsecond clock can represent (u64 microseconds): only the
+   upper side matters, a bound before 1970 is below every entry *)
+Definition bound_rep (b : option Z) : Prop :=
+  match b with None => True | Some x => x < 18446744073709551616 end.
+(* non-negative representable bounds (used by the regression lemmas) *)
 Definition bound_ok (b : option Z) : Prop :=
   match b with None => True | Some x => 0 <= x < 18446744073709551616 end.
